@@ -415,7 +415,7 @@ def request_deps(ctx):
             calls = calls_to_role(r, a, req_fns, R)
             got = set()
             for bb, t in calls:
-                extra = decisions_to(a, R, bb, [(cond_is_insert_result("requesters"), True), (cond_len_eq_one("requesters"), True)])
+                extra = decisions_to(a, R, bb, [(cond_is_insert_result("requesters"), True), (cond_len_eq_one("requesters", k), True)])   # "first requester *of this kind*"
                 if extra:
                     ctx.bad(f"{lab}/Requested.{k}/guard@{bb}", [site(a, bb)], "the dependencies are requested only under a further condition (" + fmt_conds(extra) + "): with it false they are never requested (or requested later, behind targets they do not depend on) and the target waits",
                             props=["C04", "C17"] + (["C20"] if not kinds else []))
